@@ -14,7 +14,7 @@ RULE = ("result contracts on +, radd, double, neg, ==, !=, x/y, to_affine, scale
 ASSUMPTIONS = ["reference affine arithmetic vf/ref/ec.py (self-tested: group axioms on a toy curve, secp256k1 multiples)",
                "operands are constructed with coordinates reduced to [0,p-1] or are library outputs",
                "CPython int arithmetic and pow(x,-1,p)"]
-REQUIRED = {"quick": ["add.equal", "add.opposite", "add.generic", "add.identity", "double", "neg", "eq.true", "eq.false",
+REQUIRED = {"quick": ["cross_curve", "add.equal", "add.opposite", "add.generic", "add.identity", "double", "neg", "eq.true", "eq.false",
                       "affine", "prod.add.equal_diffz", "prod.add.opposite", "prod.neg_plus_nm1", "prod.generic", "legacy.add", "legacy.double"]}
 EXHAUSTIVE = {"quick": ["all non-singular curves over F_5, F_7, F_11, F_13: all ordered pairs of group elements, 8 sampled representation pairs each; all representations for unary ops"],
               "thorough": ["all non-singular curves over F_p, p <= 31: all ordered pairs, 10 sampled representation pairs each; p in {5,7,11}: full representation product"]}
